@@ -102,3 +102,53 @@ def all_documents():
     for family in FAMILIES:
         for doc_id, html, groups in family():
             yield doc_id, html, groups
+
+
+# ---------------------------------------------------------------------------------------------
+# C04: break values between table rows, row groups and nested blocks (page tall enough for everything, so
+# only forced breaks create pages)
+
+BREAK_VALUES = ['auto', 'avoid', 'avoid-page', 'avoid-column', 'page', 'column', 'left', 'right', 'recto', 'verso']
+
+
+def break_documents():
+    """-> (doc id, html, [(values meeting, words of A, words of B)])"""
+    def words(w, n=1):
+        return w.take(n)
+
+    for v1, v2 in itertools.product(BREAK_VALUES, BREAK_VALUES):
+        # table rows
+        w = Words()
+        rows, obs, cells = [], [], []
+        for i in range(5):
+            text, ids = words(w)
+            cells.append(ids)
+            style = ''
+            if i == 1:
+                style = f'break-after:{v1}'
+            if i == 2:
+                style = f'break-before:{v2}'
+            rows.append(f'<tr style="{style}"><td>{text}</td></tr>')
+        obs.append(([v1, v2], cells[1], cells[2]))
+        obs.append((['auto', 'auto'], cells[0], cells[1]))
+        yield (f'brk-rows-{v1}-{v2}', page(f'<p>{words(w)[0]}</p><table>{"".join(rows)}</table>', 200, 400), obs)
+        # row groups, value on the group and on its first row
+        w = Words()
+        a1, ida1 = words(w)
+        a2, ida2 = words(w)
+        b1, idb1 = words(w)
+        b2, idb2 = words(w)
+        html = (f'<table><tbody style="break-after:{v1}"><tr><td>{a1}</td></tr><tr><td>{a2}</td></tr></tbody>'
+                f'<tbody><tr style="break-before:{v2}"><td>{b1}</td></tr><tr><td>{b2}</td></tr></tbody></table>')
+        # between the groups: after-chain of group 1 is [row a2 after=auto, group after=v1] in tree order, then
+        # before-chain of group 2: [group before=auto, row b1 before=v2]
+        yield (f'brk-groups-{v1}-{v2}', page(html, 200, 400), [(['auto', v1, 'auto', v2], ida2, idb1)])
+        # nested blocks
+        w = Words()
+        x, idx = words(w)
+        a, ida = words(w)
+        b, idb = words(w)
+        html = (f'<p>{x}</p><div><div style="break-after:{v1}"><p>{a}</p></div></div>'
+                f'<div style="break-before:{v2}"><div><p>{b}</p></div></div>')
+        yield (f'brk-blocks-{v1}-{v2}', page(html, 200, 400),
+               [(['auto', v1, 'auto', v2, 'auto', 'auto'], ida, idb)])
